@@ -202,7 +202,8 @@ fn run_twins(rep: &mut Report, p: &Params, xs: &[In], pow2: f64, arb: f64, d: f6
                                 let branch_ok = match kind {
                                     Kind::Obv => !obv_poisoned,
                                     Kind::Mfi => !r.near_tie && mfi_gaps.iter().all(|g| *g >= 1e-9),
-                                    Kind::Cci => !r.degenerate,
+                                    // a window of bit-identical bars stays one under any scaling: CCI is 0 in both units
+                                    Kind::Cci => !r.degenerate || r.exact_neutral,
                                     _ => true,
                                 };
                                 // an exactly degenerate window (identical inputs) stays degenerate under
@@ -524,6 +525,16 @@ fn run_main(ctx: &Ctx) -> Report {
         let bars_mode = idx % 2 == 1;
         let (inputs, minp): (Vec<In>, f64) = if bars_mode {
             let bs = BarGen::new(BAR_STYLES[(idx / 2) % BAR_STYLES.len()], base, rng.u64()).take(len);
+            let mut bs = bs;
+            if idx % 8 == 3 {
+                // runs of identical bars (a halted instrument): windows that are exactly flat in every unit
+                for i in 1..bs.len() {
+                    if i % 97 < 30 {
+                        bs[i] = bs[i - 1];
+                    }
+                }
+                rep.count("bar_streams_with_runs_of_identical_bars");
+            }
             let mn = bs.iter().map(|b| b.l).fold(f64::INFINITY, f64::min);
             (bs.iter().map(|b| In::B(*b)).collect(), mn)
         } else {
